@@ -238,6 +238,8 @@ pub fn run_prop<T, S, F>(
         failure_persistence: None,
         rng_seed: RngSeed::Fixed(ctx.sub_seed(sub)),
         max_shrink_iters,
+        // shrinking only affects how small the replay file is, never the verdict
+        max_shrink_time: 180_000,
         max_global_rejects: 65536,
         ..Config::default()
     };
